@@ -17,6 +17,23 @@ from numbers import Real
 from collections.abc import Sized, Iterable
 
 
+def static_part(expr):
+    """
+    The deterministic part of an expression obtained by substituting
+    decision rules. Convex functions of affinely adaptive decisions are not
+    supported, so a non-zero random part is an error.
+    """
+
+    if isinstance(expr, RoAffine):
+        if (expr.raffine.linear.count_nonzero() > 0 or
+                np.any(expr.raffine.const)):
+            raise SyntaxError('Convex functions of affinely adaptive ' +
+                              'decisions are not supported.')
+        return expr.affine
+
+    return expr
+
+
 class Model:
     """
     Returns a model object with the given number of scenarios.
@@ -608,9 +625,9 @@ class Model:
                     aff_scale = linear_sc@drule + const_sc.reshape(const_sc.size)
                 if not isinstance(aff_scale, Real):
                     aff_scale = aff_scale.reshape(constr.affine_scale.shape)
+                    aff_scale = static_part(aff_scale)
 
-                if isinstance(aff_in, RoAffine):
-                    aff_in = aff_in.affine
+                aff_in = static_part(aff_in)
                 if isinstance(constr.affine_out, (np.ndarray, Real)):
                     linear_out = np.zeros((constr.affine_out.size, drule.shape[0]))
                     const_out = constr.affine_out
@@ -618,8 +635,7 @@ class Model:
                     linear_out = constr.affine_out.linear
                     const_out = constr.affine_out.const
                 aff_out = linear_out@drule + const_out.reshape(const_out.size)
-                if isinstance(aff_out, RoAffine):
-                    aff_out = aff_out.affine
+                aff_out = static_part(aff_out)
                 aff_out = aff_out.reshape(constr.affine_out.shape)
 
                 ew_constr = PCvxConstr(aff_in.model, aff_in, aff_scale, aff_out,
@@ -629,8 +645,7 @@ class Model:
                 const_in = constr.affine_in.const
                 aff_in = linear_in@drule + const_in.reshape(const_in.size)
                 aff_in = aff_in.reshape(constr.affine_in.shape)
-                if isinstance(aff_in, RoAffine):
-                    aff_in = aff_in.affine
+                aff_in = static_part(aff_in)
                 if isinstance(constr.affine_out, (np.ndarray, Real)):
                     linear_out = np.zeros((constr.affine_out.size, drule.shape[0]))
                     const_out = constr.affine_out
@@ -639,8 +654,7 @@ class Model:
                     const_out = constr.affine_out.const
                 aff_out = linear_out@drule + const_out.reshape(const_out.size)
                 aff_out = aff_out.reshape(constr.affine_out.shape)
-                if isinstance(aff_out, RoAffine):
-                    aff_out = aff_out.affine
+                aff_out = static_part(aff_out)
                 ew_constr = CvxConstr(aff_in.model, aff_in, aff_out,
                                       constr.multiplier, constr.xtype,
                                       params=constr.params)
